@@ -1288,7 +1288,7 @@ example : underToken 0 [0x51, 0x62] (request (run tokStart (prefixTokenEvents.ta
   other_token_survives_cancel_request _ 0 0 7 true 3 [0x51] [0x51, 0x62] (by decide) (by decide) (by decide) (by decide)
 
 /-! ### GLOBAL: FETCH observations (RFC 8132, round R11c) — the identity of an observation is (method, cache-key options, FETCH payload)
-`reqKey code opts payload` (Model/ObserveKey.lean) is the transcription of coap_cache_derive_key_w_ignore after fix a4f9bc4: the
+`reqKey code opts payload` (Model/ObserveKey.lean) is the transcription of coap_cache_derive_key_w_ignore after fix 3034572: the
 method code, for FETCH the length of the payload and the payload, then the cache-key options.  `Event.reg c r tok key …` of M
 carries an ARBITRARY key, so every global theorem above (reregistration_replaces, observe_strictly_increasing_run,
 notes_only_to_listed, no_notification_after_cancel_run, ref_eq_holders, con_active_eq_queued, …) already quantifies over the
@@ -1301,7 +1301,7 @@ def SameRequest (m1 : Nat) (o1 : List ReqOpt) (p1 : List Nat) (m2 : Nat) (o2 : L
   m1 = m2 ∧ cacheOpts obsIgnore o1 = cacheOpts obsIgnore o2 ∧ (m1 = 5 → p1 = p2)
 
 /-- equal keys ⇔ same request: method, options AND (for FETCH) payload; nothing else is part of the key and nothing of these is
-    forgotten.  The direction → was FALSE before fix a4f9bc4 (`fetch_payload_aliased_before_fix`). -/
+    forgotten.  The direction → was FALSE before fix 3034572 (`fetch_payload_aliased_before_fix`). -/
 theorem request_identity_exact (m1 m2 : Nat) (o1 o2 : List ReqOpt) (p1 p2 : List Nat) (hm1 : m1 < 256) (hm2 : m2 < 256)
     (h1 : WfOpts o1) (h2 : WfOpts o2) (hp1 : WfPayload p1) (hp2 : WfPayload p2) :
     reqKey m1 o1 p1 = reqKey m2 o2 p2 ↔ SameRequest m1 o1 p1 m2 o2 p2 :=
@@ -1423,7 +1423,7 @@ def wFetchRes : Res :=
 example : ((addToRes wFetchRes 0 8 (reqKey 5 (wFetch []) [0x41, 0x42]) 2).subs.map fun s => (s.sess, s.token)) = [(0, 8), (0, 7)] ∧
     ((addToRes wFetchRes 0 8 (reqKey 5 (wFetch []) [0x41]) 2).subs.map fun s => (s.sess, s.token)) = [(0, 8)] := by decide
 
-/-- the defect fixed by a4f9bc4, as decided witnesses: the digest input as it was (options, then the bare FETCH payload, no method)
+/-- the defect fixed by 3034572, as decided witnesses: the digest input as it was (options, then the bare FETCH payload, no method)
     is the same for (a) and (b), and for a GET and a FETCH with the empty payload; the present one tells them apart.  Replays:
     `obs st=30 R=d0 C=1 reg:0:0:1:5:C:1:0:4 reg:0:0:2:3:C:2:0:1 chg:0 io` and `obs st=30 R=d0 C=1 reg:0:0:1:0:C:1 reg:0:0:2:0:C:2:0:1 chg:0 io` -/
 def digestBeforeFix (code : Nat) (opts : List ReqOpt) (payload : List Nat) : List Nat :=
